@@ -28,6 +28,7 @@ class Runtime:
         self.loop = loop
         self.plan = plan
         self.calls = []  # (path, coord, parent, args, ctx_ok)
+        self.seen_vars = []  # info.variable_values as seen by each resolver call
         self.started = {}
         self.finished = {}
         self.suspend = suspend
@@ -88,6 +89,7 @@ def make_resolver(coord):
         ctx_ok = getattr(ctx, "rt", None) is rt
         rt.calls.append((path, coord, parent, dict(args) if isinstance(args, dict) else args, ctx_ok,
                          (info.parent_type.name, info.field_name)))
+        rt.seen_vars.append(info.variable_values)
         if rt.suspend:
             await loop.point((rt.rid,) + path)
         loop.ev("finish", rt.rid, path)
